@@ -22,7 +22,7 @@ def hostile_paths(rng, n):
     """Byte strings beyond the model's alphabet: NUL, 64 KiB, doubled separators, mixed '..', random bytes."""
     out = []
     segs = ["..", ".", "", "a", "f1", "g-other", "secret", "up.txt", "sub", "deep", "PS3ISO", "game.iso", "***DVD***", "***PS3***",
-            "g", "..g-other", "g-other/..", "\x00", "a\x00b", "x" * 300, "%2e%2e", "..\\", "...."]
+            "g", "..g-other", "g-other/..", "***DVD***..", "***PS3***..", "***DVD***", "***DVD***g-other", "\x00", "a\x00b", "x" * 300, "%2e%2e", "..\\", "...."]
     for _ in range(n):
         k = rng.randrange(1, 9)
         p = "/".join(rng.choice(segs) for _ in range(k))
@@ -40,6 +40,9 @@ def hostile_paths(rng, n):
     out.append(b"/***PS3***/../../g-other/sub".hex())
     out.append(b"/***DVD***/../g-other/sub".hex())
     out.append(b"/../g-other/PS3ISO/../secret.iso".hex())
+    out.append(b"/***DVD***../g-other".hex())
+    out.append(b"/***DVD***../g-other/sub".hex())
+    out.append(b"/***PS3***../g-other/sub".hex())
     return out
 
 
